@@ -87,4 +87,11 @@ def conserves (fields : List String) (src out : List Cell) : Bool :=
 def expectStraddle (q : Int) (u : ResUnit) (origin : Date) (src : List Cell) : Bool :=
   src.any fun c => windowEnd q u origin c.ps < c.pe
 
+/-- **all clauses at once** (the conjunction the driver reports clause by clause): windows from the requested
+origin, exact cover, per-cell sums over the cells inside the window, field names, conservation per slice and
+evaluation date. `src` is the source triangle after the evaluation filter. -/
+def holds (q : Int) (u : ResUnit) (origin : Date) (fields : List String) (src out : List Cell) : Bool :=
+  windowsOk q u origin out && cover src out && cellSums fields src out && keysOk src out &&
+  conserves fields src out
+
 end Bermuda.Spec.C08
